@@ -72,7 +72,7 @@ CALLABLES = ["scalar", "scalar", "pyfloat", "vec", "vec", "mat", "mat", "empty",
 
 
 def n_cases(tier):
-    return 800 if tier == "quick" else 12000
+    return 4000 if tier == "quick" else 32000
 
 
 # ----------------------------------------------------------------------------------------
